@@ -492,7 +492,7 @@ class StabilizerState:
         if self.num_qubits == 0:
             return StabilizerState(other)
         elif other.num_qubits == 0:
-            return self
+            return StabilizerState(self)
         else:
             this_X_stab = self._group[:, : self.num_qubits]
             this_Z_stab = self._group[:, self.num_qubits : -1]
